@@ -104,6 +104,7 @@ fn base_cfg(pattern: &str, i: usize, seed: u64, real: bool) -> HsCfg {
             5 => Some(["A", "", "Noise", "nöise_ü"][i % 4].to_string()),
             _ => None,
         },
+        hand_mods: None,
         seed: r.next(),
     }
 }
@@ -205,6 +206,10 @@ fn gen_hs(run: &mut Run, prop: &str, seed: u64, thorough: bool) {
                         }
                         if matches!(prop, "C17" | "C07" | "C19" | "C03") {
                             cfg.wrong_rs = (pi + rep + usize::from(real)) % 2 == 0;
+                        }
+                        if !cfg.psks.is_empty() && (pi + rep) % 3 == 0 {
+                            // the modifier list installed by hand (public fields), in reverse order: same instance
+                            cfg.hand_mods = Some(cfg.psks.iter().rev().map(|n| format!("psk{n}")).collect::<Vec<_>>().join(","));
                         }
                         let nfaults = if thorough { 3 } else { 2 };
                         for k in 0..nm {
@@ -321,7 +326,7 @@ fn run_tamper_continue(cfg: &HsCfg, k_alt: usize, field: usize, sc: &mut Sc, r: 
     let (Some(pub_i), Some(pub_r)) = (pub_of(&cfg.res_i, &cfg.dh, &s_i), pub_of(&cfg.res_r, &cfg.dh, &s_r)) else { return };
     let pub_len = pub_i.len();
     let psk: Vec<(u8, Vec<u8>)> = cfg.psks.iter().map(|n| (*n, vec![0x11 + *n; 32])).collect();
-    let mk = |initiator: bool, kr: &mut Rng64| BuildSpec { alias: None,
+    let mk = |initiator: bool, kr: &mut Rng64| BuildSpec { alias: None, mods: None,
         name: name.clone(),
         initiator,
         resolver: cfg.res_i.clone(),
@@ -421,7 +426,7 @@ fn gen_builder_new(run: &mut Run, seed: u64, thorough: bool) {
             let psk: Vec<(u8, Vec<u8>)> = cfg.psks.iter().map(|n| (*n, kr.bytes(32))).collect();
             let mut sc = Sc::new();
             sc.ex.comment(&format!("Builder::new {name}"));
-            let mk = |initiator: bool| BuildSpec { alias: None,
+            let mk = |initiator: bool| BuildSpec { alias: None, mods: None,
                 name: name.clone(),
                 initiator,
                 resolver: "new".into(),
@@ -565,7 +570,7 @@ fn run_mismatch(cfg: &HsCfg, kind: usize, slot: Option<usize>, sc: &mut Sc, r: &
         return false;
     };
     let psk: Vec<(u8, Vec<u8>)> = cfg.psks.iter().map(|n| (*n, vec![0x21 + *n; 32])).collect();
-    let mut spec_i = BuildSpec { alias: None,
+    let mut spec_i = BuildSpec { alias: None, mods: None,
         name: name.clone(),
         initiator: true,
         resolver: cfg.res_i.clone(),
@@ -576,7 +581,7 @@ fn run_mismatch(cfg: &HsCfg, kind: usize, slot: Option<usize>, sc: &mut Sc, r: &
         prologue: Some(b"prologue".to_vec()),
         rng: kr.bytes(64),
     };
-    let mut spec_r = BuildSpec { alias: None,
+    let mut spec_r = BuildSpec { alias: None, mods: None,
         name: name.clone(),
         initiator: false,
         resolver: cfg.res_r.clone(),
@@ -856,7 +861,7 @@ fn gen_low_order(run: &mut Run, seed: u64) {
         for re in &points {
             let mut sc = Sc::new();
             sc.ex.comment(&format!("low-order remote ephemeral {name}"));
-            let spec = BuildSpec { alias: None,
+            let spec = BuildSpec { alias: None, mods: None,
                 name: name.into(),
                 initiator: false,
                 resolver: "default".into(),
@@ -1126,6 +1131,7 @@ fn run_prop(prop: &str, thorough: bool, seed: u64) -> Run {
         "C10" => {
             gen_parse(&mut run, seed, false);
             gen_build(&mut run, seed, false);
+            gen_handmods(&mut run, seed);
             gen_api(&mut run, seed, thorough);
             gen_hs(&mut run, prop, seed, thorough);
             gen_transport(&mut run, prop, seed, thorough);
@@ -1137,6 +1143,7 @@ fn run_prop(prop: &str, thorough: bool, seed: u64) -> Run {
         },
         "C12" => {
             gen_build(&mut run, seed, thorough);
+            gen_handmods(&mut run, seed);
             gen_api(&mut run, seed, thorough);
             gen_tokens(&mut run, seed, thorough);
             gen_hs(&mut run, prop, seed, thorough);
@@ -1250,6 +1257,7 @@ fn exec_line(ex: &mut Exec, line: &str) {
         "build" => {
             let psks = kv(&parts, "psks");
             let spec = BuildSpec { alias: kv(&parts, "alias").strip_prefix('x').map(|h| String::from_utf8_lossy(&b(h)).into_owned()),
+                mods: if parts.iter().any(|x| x.starts_with("mods=")) { Some(kv(&parts, "mods").to_string()) } else { None },
                 name: String::from_utf8_lossy(&b(parts[3])).into_owned(),
                 initiator: parts[2] == "i",
                 resolver: kv(&parts, "res").into(),
@@ -1273,6 +1281,9 @@ fn exec_line(ex: &mut Exec, line: &str) {
         },
         "query" => {
             ex.query(parse_u(parts[1]));
+        },
+        "parse_part" => {
+            ex.parse_part(parts[1], &b(parts[2]));
         },
         "to_transport" => {
             ex.convert_via(parse_u(parts[1]), false, false);
@@ -1301,10 +1312,10 @@ fn exec_line(ex: &mut Exec, line: &str) {
         "rekey" => {
             ex.rekey(parse_u(parts[1]), parts[2]);
         },
-        "rekey_manual" => {
+        "rekey_manual" | "rekey_manual_d" => {
             let f = |s: &str| -> Option<[u8; 32]> { opt_bytes(s).and_then(|v| v.try_into().ok()) };
             let (a, c) = (f(parts[2]), f(parts[3]));
-            ex.rekey_manual(parse_u(parts[1]), a.as_ref(), c.as_ref());
+            ex.rekey_manual_via(parse_u(parts[1]), a.as_ref(), c.as_ref(), parts[0] == "rekey_manual_d");
         },
         "set_recv_nonce" => ex.set_recv_nonce(parse_u(parts[1]), parse_u(parts[2])),
         "set_send_nonce" => ex.set_send_nonce(parse_u(parts[1]), parse_u(parts[2])),
